@@ -150,6 +150,28 @@ let op_legal (fen : string) : string =
 let op_valid (fen : string) : string =
   with_fen fen (fun p -> if M.valid_position p then "1" else "0")
 
+
+(* mate <n> <fen> : "<forced_mate_within n> <forced_loss_within n> <mating moves (mate in one)>" by the extracted rules *)
+let op_mate (args : string list) (line : string) : string =
+  match args with
+  | n :: _ ->
+    with_fen (rest_after line 2) (fun p ->
+        let k = nat_of_int (int_of_string n) in
+        let m1 = List.filter (fun m -> M.checkmate (M.make_move p m)) (M.legal_moves p) in
+        Printf.sprintf "%d %d %s" (if M.forced_mate_within k p then 1 else 0) (if M.forced_loss_within k p then 1 else 0)
+          (String.concat "," (List.sort compare (List.map (uci_of p) m1))))
+  | _ -> "BAD-ARGS"
+
+
+(* s2s <v> : the model of score2str *)
+let op_s2s (args : string list) : string =
+  match args with
+  | [v] -> (match M.score2str (z_of_int (int_of_string v)) with
+      | M.Cp n -> "cp " ^ string_of_int (int_of_z n)
+      | M.Mate n -> "mate " ^ string_of_int (int_of_z n)
+      | M.MateNeg n -> "mate -" ^ string_of_int (int_of_z n))
+  | _ -> "BAD-ARGS"
+
 (* ---------- game ops: "<op> <fen> | m1 m2 ..." ; one observation per position, joined by " ; " ---------- *)
 let split_game (rest : string) : string * string list =
   match String.index_opt rest '|' with
@@ -637,6 +659,8 @@ let dispatch (line : string) : string =
      | "minfo" -> op_minfo args
      | "legal" -> op_legal (rest_after line 1)
      | "valid" -> op_valid (rest_after line 1)
+     | "mate" -> op_mate args line
+     | "s2s" -> op_s2s args
      | "g_legal" -> run_game (rest_after line 1) obs_legal
      | "g_fen" -> run_game (rest_after line 1) obs_fen
      | "g_uci" -> run_game (rest_after line 1) obs_uci
